@@ -743,6 +743,16 @@ class Function(dd._abc.Operator):
             ) -> _Cardinality:
         return len(self)
 
+    def __copy__(
+            self
+            ) -> 'Function':
+        """Return a new reference to the same node.
+
+        The copy holds its own reference to the node,
+        which it releases when it is deleted.
+        """
+        return Function(self.node, self.bdd)
+
     def __del__(
             self
             ) -> None:
